@@ -74,6 +74,17 @@ CLAIMS = {
           'Tie: tables regenerated every run; Background2D read orders (all ordered pairs/triples + random) and profile histories run on the real objects and compared with the model and with fresh objects.',
   'note': 'Trusted: Lean kernel + standard axioms; AST table extractors (tools/extract_tables.py); the abstraction "value = function of immutable resources"; known finding F18 (Ellipse.fit_image flags persist by design).',
  },
+ 'C19': {
+  'design_ref': 'DESIGN.md §5 C19',
+  'technique': 'Lean 4 theorems on the profile arithmetic model (difference quotients, monotone prefix) + C02/C09 theorems reused + correspondence with CurveOfGrowth/RadialProfile',
+  'text': 'Proved in Lean (exact arithmetic): RadialProfile is the difference quotient of consecutive aperture sums and areas, so a constant image gives that constant in every bin of non-zero area '
+          '(diff_getElem, constant_image_constant_profile) and errors propagate in quadrature (radial_error_quadrature); weighted sums are monotone in pixel-wise weights for non-negative data and counting weights are monotone in the shape '
+          '(wsum_mono, countP_mono), hence a non-decreasing curve of growth; the prefix kept by calc_radius_at_ee is strictly increasing and maximal and contains the last increasing sample (monoPrefix_chain, monoPrefix_maximal). '
+          'The curve-of-growth samples themselves are aperture sums: C02 theorems (goodPixels_spec etc.). normalize/unnormalize: C09 theorems profile_history_inv / unnormalize_restores over the table regenerated from the source. '
+          'Tie: CurveOfGrowth compared with per-radius aperture photometry; RadialProfile with the Lean difference-quotient model fed those sums (exact rationals); calc_radius_at_ee with the Lean monotone-prefix length and the inverse relation at every kept sample; '
+          'normalisation histories vs the Lean scale model. [partial] Pchip interpolation is not modelled (checked at sample points only).',
+  'note': 'Trusted: Lean kernel + standard axioms; hand models Model/Profile.lean, Model/ProfileNorm.lean tied by differential testing; scipy PchipInterpolator; float rounding (1e-9 relative).',
+ },
 }
 
 _todo = 'check not built yet in this round (see DESIGN.md §10 build order); not claimed until its machinery is committed'
